@@ -98,9 +98,19 @@ struct St {
 
 type Snap = BTreeMap<String, (u32, Vec<(u32, Vec<u8>, u64, Option<u16>)>)>;
 
-fn snapshot(s: &Subject<Ep>) -> Snap {
+/// Implementation state: public API plus the hook accessors for the two private per-observer fields. Without the
+/// hooks (feature `nohooks`) the private fields are taken from the reference model `m`, i.e. only what later
+/// operations reveal is compared.
+fn snapshot(s: &Subject<Ep>, m: &RefSubject) -> Snap {
     let mut paths: Vec<String> = vec![P1.into(), P2.into(), P3.into(), P4.into(), PNEVER.into()];
-    for p in s.verif_resource_paths() {
+    #[cfg(not(feature = "nohooks"))]
+    let extra: Vec<String> = {
+        let _ = m;
+        s.verif_resource_paths()
+    };
+    #[cfg(feature = "nohooks")]
+    let extra: Vec<String> = m.resources.keys().cloned().collect();
+    for p in extra {
         if !paths.contains(&p) {
             paths.push(p);
         }
@@ -111,12 +121,36 @@ fn snapshot(s: &Subject<Ep>) -> Snap {
             let obs = r
                 .observers
                 .iter()
-                .map(|o| (o.endpoint.0, o.token.clone(), o.verif_unacknowledged(), o.verif_pending_message_id()))
+                .map(|o| {
+                    #[cfg(not(feature = "nohooks"))]
+                    let hidden = (o.verif_unacknowledged(), o.verif_pending_message_id());
+                    #[cfg(feature = "nohooks")]
+                    let hidden = m
+                        .resources
+                        .get(&p)
+                        .and_then(|mr| mr.observers.iter().find(|mo| mo.endpoint == o.endpoint.0))
+                        .map(|mo| (mo.unacked, mo.pending))
+                        .unwrap_or((0, None));
+                    (o.endpoint.0, o.token.clone(), hidden.0, hidden.1)
+                })
                 .collect();
             out.insert(p, (r.sequence, obs));
         }
     }
     out
+}
+
+fn limit_of(s: &Subject<Ep>, m: &RefSubject) -> u64 {
+    #[cfg(not(feature = "nohooks"))]
+    {
+        let _ = m;
+        s.verif_unacknowledged_limit()
+    }
+    #[cfg(feature = "nohooks")]
+    {
+        let _ = s;
+        m.limit
+    }
 }
 
 fn request(ep: u32, tok: &[u8], path: &str, mid: u16) -> CoapRequest<Ep> {
@@ -322,7 +356,7 @@ fn bfs_limit(prop: Prop, ctx: &Ctx, rep: &mut Report, limit: u8, with_setlimit: 
             },
             step: &|st: &mut St, ai: usize, check: bool| {
                 let a = &acts[ai];
-                let before = if check { Some(snapshot(&st.s)) } else { None };
+                let before = if check { Some(snapshot(&st.s, &st.m)) } else { None };
                 let model_before = if check { Some(st.m.clone()) } else { None };
                 if let Err(pn) = apply_impl(&mut st.s, a) {
                     return Step::Violated(format!("{}/panic@{}", pname, pn.site()), format!("{:?}: {}", a, pn.message), Json::Null);
@@ -338,7 +372,7 @@ fn bfs_limit(prop: Prop, ctx: &Ctx, rep: &mut Report, limit: u8, with_setlimit: 
                     }
                     return Step::Ok;
                 }
-                let after = snapshot(&st.s);
+                let after = snapshot(&st.s, &st.m);
                 match compare(a, before.as_ref().unwrap(), &after, &mut st.m, model_before.as_ref().unwrap()) {
                     None => Step::Ok,
                     Some(mm) => {
@@ -356,8 +390,8 @@ fn bfs_limit(prop: Prop, ctx: &Ctx, rep: &mut Report, limit: u8, with_setlimit: 
                     }
                 }
             },
-            key: &|st: &St| key_of(&snapshot(&st.s), st.s.verif_unacknowledged_limit()),
-            project: Some(&|st: &St| key_projected(&snapshot(&st.s), st.s.verif_unacknowledged_limit())),
+            key: &|st: &St| key_of(&snapshot(&st.s, &st.m), limit_of(&st.s, &st.m)),
+            project: Some(&|st: &St| key_projected(&snapshot(&st.s, &st.m), limit_of(&st.s, &st.m))),
             label: &|a| format!("{:?}", acts[a]),
         },
     );
@@ -447,7 +481,7 @@ fn directed(ctx: &Ctx, rep: &mut Report) {
             let mut evicted_at: Vec<(u32, usize)> = Vec::new();
             let mut last_obs_value: Option<u32> = None;
             for (k, a) in ops.iter().enumerate() {
-                let before = snapshot(&s);
+                let before = snapshot(&s, &m);
                 let model_before = m.clone();
                 if let Err(pn) = apply_impl(&mut s, a) {
                     rep.violation(viol(
@@ -460,7 +494,7 @@ fn directed(ctx: &Ctx, rep: &mut Report) {
                     return;
                 }
                 apply_model(&mut m, a);
-                let after = snapshot(&s);
+                let after = snapshot(&s, &m);
                 if let Some(mm) = compare(a, &before, &after, &mut m, &model_before) {
                     rep.violation(viol(
                         "directed-long-histories",
